@@ -183,7 +183,8 @@ def l5(led, rid, ctx):
 
 def l6(led, rid, ctx):
     lib = ctx.lib
-    f = lib.method("NogoodPropagator", "add_permanent_nogood")
+    from .shared import method_view as _mv
+    f = _mv(lib, "NogoodPropagator", "add_permanent_nogood", keep=("preprocess_nogood", "add_watcher", "is_nogood_propagating", "debug_is_properly_watched", "propagate"), same_type_only=True)
     R = resolver(f)
     posts = [c for c in f.calls if c.name == "post_predicate" and "PropagationContextMut" in (c.self_ty or "")]
     led.check(len(posts) >= 1, rid, "unit-arm-posts", f.span, "", "add_permanent_nogood no longer posts the unit case")
